@@ -30,7 +30,7 @@ RULE = ("cases = (dataset, 1-3 shared variables, pool of 2-4 queries, history of
         "with a fresh twin evaluated once and with the reference, and the data is compared with a snapshot at the end. "
         "Non-trivial = the history contains an abandoned or aborted evaluation followed by a full evaluation of a query "
         "sharing a variable with it whose result is a non-empty proper subset of the product; distinct = canonical JSON.")
-BUDGET = {"quick": (4, 300), "thorough": (16, 1200)}
+BUDGET = {"quick": (8, 220), "thorough": (16, 1200)}
 ASSUMPTIONS = ["two live result iterators over the same variables are never interleaved (take k, then close/drop)",
                "a condition object is shared only between queries that select the same variables (and contains no negation)",
                "the fault is raised by user code (a @predicate function); nothing is asserted about its propagation, only "
@@ -47,7 +47,10 @@ def _cfg():
 def _history(draw, tier):
     cfg = _cfg()
     # one history in five is built around a one-to-many join abandoned in the middle of a group of partners
-    join_story = chance(draw, 1, 5)
+    join_story = chance(draw, 1, 4)
+    # (a join whose groups of partners can be left in the middle, or two independent conjuncts: the right one is then
+    # enumerated once and answered from its cache for every further left value)
+    story_template = draw(st.sampled_from(["filter_then_join", "filter_then_join", "and_independent"]))
     nvars = draw(st.integers(2, 3)) if join_story else draw(st.integers(*cfg.nvars))
     recs = draw_dataset(draw, cfg)
     n = len(recs)
@@ -69,7 +72,7 @@ def _history(draw, tier):
     share_cmp = chance(draw, 1, 4)
     pool = []
     for qi in range(draw(st.integers(2, 4))):
-        cond = template_cond(draw, ctx, "filter_then_join" if join_story and qi == 0 else None)
+        cond = template_cond(draw, ctx, story_template if join_story and qi == 0 else None)
         if chance(draw, 1, 2) and not (join_story and qi == 0):
             flaky = ["fpred", "p_flaky", [["var", draw(st.integers(0, nvars - 1))], ["const", draw(st.sampled_from(ctx.P["ints"]))]]]
             conn = draw(st.sampled_from(["and", "and", "or"]))
